@@ -417,7 +417,7 @@ def project_tetra_to_origin(tetra):
                     else:
                         ray, simplex_len = region_abc(tetra, a_index, b_index, c_index, a, b, c, a_cross_b)
                 else:
-                    ray, simplex_len = region_ad(tetra, a_index, d_index, a, d, da_aa)
+                    ray, simplex_len = region_ab(tetra, a_index, b_index, a, b, ba_aa)
             else:
                 if d.dot(a_cross_c) <= 0:
                     if ca * ca_da + cc * da_aa - dc * ca_aa <= 0:
@@ -456,7 +456,7 @@ def project_tetra_to_origin(tetra):
                         else:
                             ray, simplex_len = region_ac(tetra, a_index, c_index, a, c, ca_aa)
                     else:
-                        if c.dot(a_cross_b):
+                        if c.dot(a_cross_b) <= 0:
                             ray, simplex_len = region_abc(tetra, a_index, b_index, c_index, a, b, c, a_cross_b)
                         else:
                             ray, simplex_len = region_acd(tetra, a_index, c_index, d_index, a, c, d, a_cross_c)
